@@ -677,6 +677,22 @@ func (g *gen) totalMessage(m *Message, anyN int) {
 	g.p("\tvhTotal_%s(x, buf)", n)
 	g.p("}")
 	g.p("")
+	g.p("// an unknown group holding a length-delimited member whose declared length is arbitrary (also huge)")
+	g.p("func VH_C06_%s_unknowngroup() {", n)
+	g.p("\tx := &%s{}", n)
+	g.p("\tnum := vhI32(\"num\")")
+	g.p("\tvhAssume(num >= 1)")
+	g.p("\tvhAssume(num <= 536870911)")
+	for _, f := range m.All {
+		g.p("\tvhAssume(num != %d)", f.Number)
+	}
+	g.p("\tbuf := protowire.AppendTag(nil, protowire.Number(num), protowire.StartGroupType)")
+	g.p("\tbuf = protowire.AppendTag(buf, 1, protowire.BytesType)")
+	g.p("\tbuf = protowire.AppendVarint(buf, vhU64(\"decl\"))")
+	g.p("\tbuf = append(buf, vhBytes(\"rest\", 3)...)")
+	g.p("\tvhTotal_%s(x, buf)", n)
+	g.p("}")
+	g.p("")
 	// recursion budget through the real library dispatch
 	for _, f := range m.All {
 		if f.Kind != "message" || f.MsgName == "" || f.Card == "map" {
